@@ -408,6 +408,10 @@ type rcase struct {
 	BC   string `json:"b_class"`
 	Law  string `json:"law"`
 	List int    `json:"list,omitempty"` // index into listKinds, for law "typed-in"
+	// laws "alias:*": operands are aliasOps()[AI], aliasOps()[AJ] from Origin
+	Origin string `json:"origin,omitempty"`
+	AI     int    `json:"ai,omitempty"`
+	AJ     int    `json:"aj,omitempty"`
 }
 
 type finding struct {
@@ -572,6 +576,7 @@ func run(c *common.Ctx) *common.Result {
 				Replay: rcase{Mode: t.mode, A: p[i].v, AC: p[i].class, B: p[t.j].v, BC: p[t.j].class, Law: t.f.law, List: t.lk}})
 		}
 	}
+	runAlias(c, res)
 	res.Add("pool_size", int64(n))
 	find := func(desc string) int {
 		for i, e := range p {
@@ -598,6 +603,50 @@ func run(c *common.Ctx) *common.Result {
 	return res
 }
 
+// runAlias: every ordered pair of the aliasing container operands (alias.go).
+func runAlias(c *common.Ctx, res *common.Result) {
+	ops := aliasOps()
+	na := len(ops)
+	type cell struct {
+		o   aliasObs
+		det [4]string
+	}
+	for _, origin := range aliasOrigins {
+		grid := make([][]cell, na)
+		common.ParallelFor(c, na, func(i int) {
+			grid[i] = make([]cell, na)
+			for j := 0; j < na; j++ {
+				grid[i][j].o, grid[i][j].det = aliasObserve(origin, ops[i], ops[j])
+			}
+		})
+		for i := 0; i < na; i++ {
+			for j := 0; j < na; j++ {
+				o := grid[i][j].o
+				for f, t := range []tri{o.eq, o.ne, o.in, o.sw} {
+					if t == triErr {
+						res.Add("evaluations", 1)
+						res.Add("no_boolean", 1)
+					} else {
+						res.Add("evaluations", 1)
+						res.Add("evaluations:aliased containers", 1)
+						if res.Distinct("cases", aliasCase(origin, f, ops[i], ops[j])) {
+							res.Add("distinct_nontrivial", 1)
+						}
+					}
+				}
+				res.Add("aliased_pairs_judged", 1)
+				if _, d := aliasRef(ops[i], ops[j]); d {
+					res.Add("aliased_pairs_with_defined_relation", 1)
+				}
+				for _, f := range aliasJudge(origin, ops[i], ops[j], o, grid[i][j].det, i < j) {
+					res.Violate(common.Violation{Class: f.class, Case: f.cs, Detail: f.detail,
+						Replay: rcase{Law: f.law, Origin: origin, AI: i, AJ: j}})
+				}
+			}
+		}
+	}
+}
+
 func coverage(c *common.Ctx, r *common.Result) map[string]interface{} {
 	per := map[string]int64{}
 	for k, v := range r.Counts {
@@ -610,13 +659,15 @@ func coverage(c *common.Ctx, r *common.Result) map[string]interface{} {
 		"distinct_nontrivial": r.Counts["distinct_nontrivial"],
 		"rule": "a case is one (mode, syntactic form, ordered pair); it is non-trivial when the program parsed, executed without error and the relation under test returned a boolean that entered the law checks; " +
 			"distinct = distinct case texts (program source plus variable bindings)",
-		"pool_size":                   r.Counts["pool_size"],
-		"ordered_pairs_judged":        r.Counts["ordered_pairs_judged"],
-		"pairs_with_defined_relation": r.Counts["pairs_with_defined_relation"],
-		"pairs_equal":                 r.Counts["pairs_equal"],
-		"typed_list_pairs_judged":     r.Counts["typed_list_pairs_judged"],
-		"evaluations_per_form":        per,
-		"no_boolean_results":          r.Counts["no_boolean"],
+		"pool_size":                           r.Counts["pool_size"],
+		"ordered_pairs_judged":                r.Counts["ordered_pairs_judged"],
+		"pairs_with_defined_relation":         r.Counts["pairs_with_defined_relation"],
+		"pairs_equal":                         r.Counts["pairs_equal"],
+		"typed_list_pairs_judged":             r.Counts["typed_list_pairs_judged"],
+		"aliased_pairs_judged":                r.Counts["aliased_pairs_judged"],
+		"aliased_pairs_with_defined_relation": r.Counts["aliased_pairs_with_defined_relation"],
+		"evaluations_per_form":                per,
+		"no_boolean_results":                  r.Counts["no_boolean"],
 	}
 }
 
@@ -627,6 +678,30 @@ func replay(c *common.Ctx, path string) int {
 		return 2
 	}
 	a, b := entry{rc.A, rc.AC}, entry{rc.B, rc.BC}
+	if strings.HasPrefix(rc.Law, "alias:") {
+		ops := aliasOps()
+		if rc.AI < 0 || rc.AI >= len(ops) || rc.AJ < 0 || rc.AJ >= len(ops) {
+			fmt.Println("bad operand index in replay")
+			return 2
+		}
+		x, y := ops[rc.AI], ops[rc.AJ]
+		o1, det := aliasObserve(rc.Origin, x, y)
+		o2, _ := aliasObserve(rc.Origin, x, y)
+		if o1 != o2 {
+			fmt.Println("NONDETERMINISTIC replay")
+			return 2
+		}
+		fmt.Printf("%s\n== %v, != %v, in %v, switch %v, reversed == %v\n", aliasCase(rc.Origin, fEq, x, y), o1.eq, o1.ne, o1.in, o1.sw, o1.rev)
+		for _, f := range aliasJudge(rc.Origin, x, y, o1, det, true) {
+			if f.law == rc.Law {
+				fmt.Println(f.class+":", f.detail)
+				fmt.Println("replay: still violated")
+				return 1
+			}
+		}
+		fmt.Println("replay: the law holds")
+		return 0
+	}
 	if rc.Law == "typed-in" {
 		if rc.List < 0 || rc.List >= len(listKinds) {
 			fmt.Println("bad list kind in replay")
@@ -682,6 +757,7 @@ func init() {
 		Assumptions: []string{
 			"values come from the stated pool (nil, 2 bools, 24 int64, 28 float64 incl. NaN/±Inf/±0, 20 strict decimal numerals, 14 lenient spellings, 15 non-numeral strings, 17+12 untyped slices/maps of depth <= 2; thorough adds 9 depth-3 containers); ALL ordered pairs",
 			"`in` is additionally checked over typed lists ([]int64, []float64, []string; as typed literals and as host-defined slices) holding one pool value representable in the element type: `a in l` must equal `a == l[0]` as the VM itself evaluates it",
+			"containers that alias each other (views a, a[:0], a[:1], a[:2], a[1:], a[1:2], in-place appended views a[:1]+2, a[:2]+9 of an untyped and of a []int64 base, one map under two names; bases built by the script and defined by the host): all ordered pairs in the four forms, laws on every pair, structural reference within a family; pairs where an in-place append rewrites a cell the other operand reads are laws-only",
 			"operands reach the relation as literals and as variables (thorough: also mixed, and behind interface-typed slice elements)",
 			"the reference relation is compared only where the property defines it: nil; same primitive type; int vs float (against the VM's own a<=b && a>=b); strict decimal numerals -?(0|[1-9][0-9]*)(.[0-9]+)? vs numbers when the exact and the nearest-float64 readings agree; strings that are not decimal numerals (hex, binary, embedded blanks, words) vs numbers; slices vs slices and maps vs maps whose corresponding leaves have identical primitive types",
 			"laws only (under-determined): bool vs non-bool, container vs primitive, slice vs map, mixed numeric/string leaves inside containers, lenient spellings (1e3, inf, nan, +1, 1_0, 01, .5, 5., -0), NaN inside containers (not generated)",
